@@ -4,6 +4,7 @@ import (
 	"fmt"
 	"go/types"
 	"os"
+	"path/filepath"
 	"strings"
 
 	"golang.org/x/tools/go/packages"
@@ -77,6 +78,30 @@ var defaultAllow = []string{
 	"(*sync/atomic.Int64).Load", "(*sync/atomic.Int64).Store", "(*sync/atomic.Int64).Add", "(*sync/atomic.Int64).Swap", "(*sync/atomic.Int64).CompareAndSwap",
 	"(*sync/atomic.Uint32).Load", "(*sync/atomic.Uint32).Store", "(*sync/atomic.Uint32).Add", "(*sync/atomic.Uint32).Swap", "(*sync/atomic.Uint32).CompareAndSwap",
 	"(*sync/atomic.Uint64).Load", "(*sync/atomic.Uint64).Store", "(*sync/atomic.Uint64).Add", "(*sync/atomic.Uint64).Swap", "(*sync/atomic.Uint64).CompareAndSwap",
+}
+
+// source files of stubbed packages that are pure (no reflection, no globals that
+// need the package initialiser) and are interpreted from SSA all the same.
+var defaultAllowFiles = map[string]map[string]bool{
+	"encoding/json": {"scanner.go": true, "indent.go": true},
+}
+
+func (e *Engine) allowedFile(fn *ssa.Function) bool {
+	if fn.Pkg == nil {
+		return false
+	}
+	files := defaultAllowFiles[fn.Pkg.Pkg.Path()]
+	if files == nil {
+		return false
+	}
+	pos := fn.Pos()
+	if !pos.IsValid() && fn.Parent() != nil {
+		pos = fn.Parent().Pos()
+	}
+	if !pos.IsValid() {
+		return false
+	}
+	return files[filepath.Base(e.Prog.Fset.Position(pos).Filename)]
 }
 
 // NewEngine prepares an exploration of the named harness function.
